@@ -72,6 +72,7 @@ def run_slice(args):
         prog.solver_timeout_ms = sl.get('solver_timeout_ms', 10000)
         st = make_setup(prog, sl)
         prog.restrict = [(re.compile(rx), k, n) for rx, k, n in sl.get('restrict', ())]
+        prog.strict_impure = props is None or 'C20' in props   # only C20 treats hash-order iteration as a dead end
         for pr in sexec.explore(prog, None, st, max_paths=max_paths, time_budget=time_budget):
             if pr.kind == 'truncated':
                 res['truncated'] = True
@@ -251,8 +252,15 @@ def replay_cases(cases, name):
     # a case without a record: one unparsable item (token slices produce them) makes rustc give up on the whole client crate, so
     # retry those cases one crate each; a case that rustc then still does not hand to the macro is not Rust and says nothing about
     # the translator ('unparsable', not counted); a record whose input differs from the printed input is a genuine mismatch
-    retry = [i for i, (st_, _) in enumerate(out) if st_ == 'norecord'][:40]
-    if retry and len(cases) > 1:
+    retry = [i for i, (st_, _) in enumerate(out) if st_ == 'norecord']
+    if retry and len(cases) > 8:
+        # chunks of 8 first (a clean chunk settles 8 cases with one compiler run), singles inside a chunk that still has gaps
+        for j in range(0, len(retry), 8):
+            idx = retry[j:j + 8]
+            sub, _ = replay_cases([cases[i] for i in idx], name + '_chunk')
+            for i, r_ in zip(idx, sub):
+                out[i] = r_
+    elif retry and len(cases) > 1:
         for i in retry:
             sub, _ = replay_cases([cases[i]], name + '_one')
             out[i] = sub[0]
